@@ -113,3 +113,74 @@ pub fn sweep_passes() -> u64 {
 pub fn loop_iters() -> u64 {
     LOOP_ITERS.load(Ordering::SeqCst)
 }
+
+// ---------- sync points with a tag filter (e.g. "only for this key") ----------
+
+fn filters() -> &'static Mutex<HashMap<String, Vec<u8>>> {
+    static F: OnceLock<Mutex<HashMap<String, Vec<u8>>>> = OnceLock::new();
+    F.get_or_init(|| Mutex::new(HashMap::new()))
+}
+
+/// Arm `name` so that only callers passing exactly `tag` park there
+pub fn arm_for(name: &str, tag: &[u8]) {
+    filters().lock().unwrap().insert(name.to_string(), tag.to_vec());
+    arm(name);
+}
+
+/// Sync point that parks only when armed for this `tag` (or armed without a filter)
+pub fn gate_tagged(name: &str, tag: &[u8]) {
+    let wanted = filters().lock().unwrap().get(name).cloned();
+    match wanted {
+        Some(w) if w.as_slice() != tag => {}
+        _ => gate(name),
+    }
+}
+
+/// Remove the tag filter of `name` and disarm it
+pub fn disarm_all(name: &str) {
+    filters().lock().unwrap().remove(name);
+    disarm(name);
+}
+
+// ---------- fault injection for the RDB writer ----------
+
+/// Number of RdbWriter::write_raw calls since the last reset
+pub static RDB_WRITES: AtomicU64 = AtomicU64::new(0);
+
+/// 0 = off; n > 0 = the n-th write_raw call from now fails
+static RDB_FAIL_AT: AtomicU64 = AtomicU64::new(0);
+
+/// 0 = return an io::Error, 1 = panic
+static RDB_FAIL_KIND: AtomicU64 = AtomicU64::new(0);
+
+pub fn rdb_reset_writes() {
+    RDB_WRITES.store(0, Ordering::SeqCst);
+}
+
+pub fn rdb_writes() -> u64 {
+    RDB_WRITES.load(Ordering::SeqCst)
+}
+
+/// Make the n-th write_raw call from now fail (n = 0 disarms); `panic` chooses a panic
+/// instead of an io::Error
+pub fn rdb_fail_nth_write(n: u64, panic: bool) {
+    RDB_FAIL_KIND.store(if panic { 1 } else { 0 }, Ordering::SeqCst);
+    RDB_FAIL_AT.store(n, Ordering::SeqCst);
+}
+
+/// Called at the top of RdbWriter::write_raw
+pub fn rdb_write_hook() -> std::io::Result<()> {
+    RDB_WRITES.fetch_add(1, Ordering::SeqCst);
+    let at = RDB_FAIL_AT.load(Ordering::SeqCst);
+    if at > 0 {
+        if at == 1 {
+            RDB_FAIL_AT.store(0, Ordering::SeqCst);
+            if RDB_FAIL_KIND.load(Ordering::SeqCst) == 1 {
+                panic!("verif: injected panic in RDB write");
+            }
+            return Err(std::io::Error::new(std::io::ErrorKind::Other, "verif: injected write failure"));
+        }
+        RDB_FAIL_AT.store(at - 1, Ordering::SeqCst);
+    }
+    Ok(())
+}
